@@ -1021,6 +1021,23 @@ func init() {
 			Desc: fmt.Sprintf("%d (history, MaxRestarts 0..2) pairs over {m,x,X,P,S} of length<=4", len(vt)),
 			Make: func() vsched.Instance { return histInstance(vt, histOracle) }})
 	}
+	// C04: lifecycle handlers that panic, in histories that also carry a stop request: the incarnation whose
+	// Initialized/Started failed is told Stopped itself (not its predecessor), the restart buffer - pill
+	// included - survives a replacement incarnation that fails to start.
+	for _, mode := range []int{0, 1} {
+		var v []histParams
+		for _, lc := range []string{"1I", "1S", "2I", "2S", "2I,3S"} {
+			for _, h := range []string{"m", "xm", "xmP", "xP", "xmS", "mxm", "xmPm"} {
+				if lc[0] != '1' && !strings.ContainsAny(h, "x") {
+					continue
+				}
+				v = append(v, histParams{Hist: h, MaxRestarts: 4, Mode: mode, Late: true, LC: lc})
+			}
+		}
+		Register(&Job{Name: fmt.Sprintf("C04/hist/lifecycle-handler-panics-mode%d", mode), Prop: "C04", Bound: 1, BoundT: 2, Budget: 40, BudgetT: 600, Shards: 4,
+			Desc: fmt.Sprintf("%d (history, failing lifecycle handler) pairs: Initialized/Started of incarnation 1, 2 (and 3) panics once, in histories with a crash, a queued tail and a Poison/Stop: every incarnation - also one that never got past Initialized - is told Stopped exactly once and nothing afterwards, the tail and the pill survive a replacement incarnation that fails to start", len(v)),
+			Make: func() vsched.Instance { return histInstance(v, histOracle) }})
+	}
 	// C13: middleware chains of length 1..3 on every lifecycle path.
 	for n := 1; n <= 3; n++ {
 		var vs []histParams
